@@ -30,3 +30,27 @@ package conn
 //@   nopanic
 //@   modifies *
 //@   ensures result1 == nil ==> result0 != nil && result0.Message != nil
+
+// ---- handshake bitfields -----------------------------------------------------------------------
+// The bitfields of a handshake (the peer's own and those of its neighbours) arrive in the binary
+// form of willf/bitset, whose decoder allocates the bit count claimed by the first 8 bytes before it
+// reads anything else. Every decode of peer-supplied bytes goes through a check of that header
+// (precondition claims_no_more_than_it_carries of BitSet.UnmarshalBinary, contracts/externs/bitset.spec),
+// so the allocation is bounded by the message size (32 KiB).
+// unmarshalBitfield checks the header before decoding: the decoded set is no longer than the bytes
+// that carried it.
+//@ func unmarshalBitfield
+//@   nopanic
+//@   modifies *
+//@   ensures bounded: result1 == nil ==> result0 != nil && result0.len <= (len(b) - 8) * 8
+
+//@ func handshakeFromP2PMessage
+//@   requires m != nil
+//@   nopanic
+//@   modifies *
+//@   ensures result1 == nil ==> result0 != nil && result0.bitfield != nil
+
+//@ func RemoteBitfields.unmarshalBinary
+//@   requires rb != nil
+//@   nopanic
+//@   modifies *
